@@ -54,6 +54,8 @@ def main():
     if "--props" in a:
         props = a[a.index("--props") + 1].split(",")
     name = os.path.basename(src)
+    if "--prefix" in a:
+        name = a[a.index("--prefix") + 1] + name
     meta = json.load(open(os.path.join(src, "meta.json")))
     prop = meta["property"]
     props = props or [prop]
